@@ -9,7 +9,7 @@ from ..cfg import Node
 from ..core import Ctx, Report, snippet, where
 from ..model import Func, own_nodes, src
 from .c03 import SIBLINGS, helper_for_field, r03_1, r03_2, r03_3
-from .common import chain, chains_in, mentions, names_in, norm_field, reachable_without_edges
+from .common import chain, chains_in, deep_resolve, mentions, names_in, norm_field, reachable_without_edges, single_env
 from .shading import analyse_shading, check_strictly_above
 
 PROPERTY = "C11"
@@ -67,10 +67,11 @@ def r11_3(ctx: Ctx, rep: Report) -> None:  # noqa: C901
         rep.violation("Acl.shading", f"report {D}", "no statement records a bottom entry under its top in the returned report", where(f))
         return
     # recorder set
+    senv = single_env(f.node)  # `line_bottom = ace_bottom.line` used as the recorded text
     guards: List[Tuple[Node, ast.AST, str]] = []  # cond node, tested expr, set name
     for c in cfg.live:
         if c.kind == "cond" and isinstance(c.ast, ast.Compare) and len(c.ast.ops) == 1 and isinstance(c.ast.ops[0], (ast.NotIn, ast.In)) and isinstance(c.ast.comparators[0], ast.Name):
-            if mentions(c.ast.left, bvar.split(".")[0]):
+            if mentions(deep_resolve(c.ast.left, senv), bvar.split(".")[0]):
                 guards.append((c, c.ast.left, c.ast.comparators[0].id))
     p_true = [s for lab, s in P.succ if lab == "T"]
     inner_head = sf.inner
@@ -81,7 +82,8 @@ def r11_3(ctx: Ctx, rep: Report) -> None:  # noqa: C901
             rep.violation("Acl.shading", cons, "an entry is recorded on a path where no shadow_of answer was positive: the report lists entries nobody shadows", where(f, node.ast))
             continue
         # (2) key from top, value from bottom
-        if not (mentions(key, tvar.split(".")[0]) and mentions(val, bvar.split(".")[0])) or mentions(key, bvar.split(".")[0]):
+        rkey, rval = deep_resolve(key, senv), deep_resolve(val, senv)
+        if not (mentions(rkey, tvar.split(".")[0]) and mentions(rval, bvar.split(".")[0])) or mentions(rkey, bvar.split(".")[0]):
             rep.violation("Acl.shading", cons, f"the report must list the bottom entry ({bvar}) under its top ({tvar})", where(f, node.ast))
             continue
         # (3) guarded by "not yet recorded"
